@@ -3,6 +3,9 @@ package receiver
 import (
 	"encoding/binary"
 	"io"
+	"time"
+
+	"github.com/gokrazy/rsync/internal/progress"
 
 	"github.com/gokrazy/rsync/internal/rsyncopts"
 	"github.com/gokrazy/rsync/internal/rsyncos"
@@ -29,6 +32,7 @@ func newRecvTransfer(fsys *vfsx.FS, conn *vconn, seed int32, opts *TransferOpts)
 		Env:      &rsyncos.Env{Stdout: io.Discard, Stderr: io.Discard},
 		Conn:     &rsyncwire.Conn{Reader: conn, Writer: conn},
 		Seed:     seed,
+		Progress: progress.NewPrinter(io.Discard, time.Now),
 	}
 }
 
